@@ -39,7 +39,9 @@ def gen_scenarios(seed, tier):
     rng = random.Random(seed * 15485863 + 6)
     n = 2400 if tier == "quick" else 40000
     for i in range(n):
-        if i % 2 == 0:
+        if i % 4 == 3:
+            yield gen_running_cancel(rng, i)
+        elif i % 2 == 0:
             d = sc.gen_stack(rng, i, kinds=["retry"], max_layers=1, ops=("submit", "cancel", "cancel", "sleep", "result"),
                              bases=("simpool1", "simpool2", "simsync"), tail=(60.0,), shutdown_p=0.0)
             d["layers"] = [sc.gen_layer(rng, "retry")]
@@ -47,6 +49,37 @@ def gen_scenarios(seed, tier):
         else:
             d = sc.gen_stack(rng, i, ops=("submit", "cancel", "cancel", "sleep", "result", "addcb"), tail=(40.0,), shutdown_p=0.0)
         yield d
+
+
+def gen_running_cancel(rng, i):
+    """cancel() lands while the attempt is RUNNING on a pool worker (the delegate's cancel() returns False) and, at the same
+    virtual instant, the callable is released and fails: the delegate's done-callback (policy, `_retry`) races with the rest of
+    `_cancel`.  The callable blocks on a scenario gate; one client cancels, another opens the gate, both at t = 0.5."""
+    n_att = rng.randint(2, 3)
+    script = [[["waitev", "g%d" % a], ["raise", "E0"]] for a in range(n_att)]
+    if rng.random() < 0.5:
+        script[-1][-1] = ["ret", rng.randrange(100)]
+    if rng.random() < 0.5:
+        pol = {"custom": True, "policy_script": [rng.choice(["retry:0.0", "retry:1.0"]) for _ in range(n_att - 1)] + ["stop"]}
+    else:
+        pol = {"max_attempts": n_att + rng.choice([0, 1]), "sleep": rng.choice([0.0, 1.0]), "exponent": 1.0, "max_sleep": 5.0,
+               "exception_base": ["E0"]}
+    canceller = [["submit", "k0", script], ["sleep", 0.5], ["cancel", "k0"]]
+    if rng.random() < 0.5:
+        canceller.append(["cancel", "k0"])
+    canceller.append(["sleep", 1.0])
+    canceller += [["setev", "g%d" % a] for a in range(1, n_att)]     # let any later attempt finish as well
+    opener = [["sleep", 0.5], ["setev", "g0"]]
+    clients = [canceller, opener]
+    if rng.random() < 0.3:
+        clients.append([["sleep", 0.5], ["cancel", "k0"]])
+    d = dict(kind="stack", idx=i, base=rng.choice(["simpool1", "simpool2"]), layers=[["retry", pol]], clients=clients, tail=30.0,
+             seed=rng.randrange(1 << 30), replay_model="retry", family="running-cancel")
+    from props.common import schedule_modes
+    d.update(schedule_modes(rng))
+    if rng.random() < 0.6:
+        d.update(mode="hold", p_switch=rng.choice([0.0, 0.02, 0.1]), trace_lines=True)
+    return d
 
 
 def run_one(desc):
